@@ -820,6 +820,31 @@ int __wrap_close(int fd)
 }
 
 // ---------------------------------------------------------------------------
+// free() of watched objects (C17: the memory of a dispatch object is released exactly once)
+
+extern void __real_free(void *);
+#define VX_MAXWATCH 16
+static struct { void *p; int id; } g_watch[VX_MAXWATCH];
+static int g_nwatch;
+
+void vx_watch_free(void *p, int id)
+{
+	if (g_nwatch >= VX_MAXWATCH) vx_finish(V_ENGINE, "too many watched pointers");
+	g_watch[g_nwatch].p = p; g_watch[g_nwatch].id = id; g_nwatch++;
+}
+
+void __wrap_free(void *p)
+{
+	if (g_active && g_nwatch && p) {
+		for (int i = 0; i < g_nwatch; i++) if (g_watch[i].p == p) {
+			g_watch[i].p = NULL;   // the address may be reused afterwards
+			vx_ev(EV_FREE, g_watch[i].id, 0);
+		}
+	}
+	__real_free(p);
+}
+
+// ---------------------------------------------------------------------------
 // /proc/<tid>/stat as seen by the pool monitor
 
 int __wrap_open(const char *path, int flags, ...)
